@@ -33,7 +33,7 @@ func runC19(e *Env) {
 		c.RuleLock(sp, e.vname("uu", "random"), e.vname("uu", "randomMutex"))
 		c.RuleNoOtherGlobals(e.Fn("C19.lock", "uu", "RandomID"), map[string]bool{e.vname("uu", "random"): true, e.vname("uu", "randomMutex"): true})
 	})
-	e.S.Floor("C19.lock", 3)
+	e.S.Floor("C19.lock", 2) // at least one access under the lock, and the other-globals obligation
 	ruleRandomBits(e)
 	ruleRandomSource(e)
 	e.S.Floor("C19.source", 1)
